@@ -1574,16 +1574,19 @@ func workerSchedGenExec(cfg WorkerCfg) int {
 	if cfg.K == 11 {
 		prop = "C11"
 	}
+	aged := 0
 	if cfg.From%2 == 1 && prop != "C11" {
 		// every second in-process worker is an old process (see AgeProcess)
-		AgeProcess(cfg.Seed, 1600)
-		cfg.Emit(map[string]interface{}{"type": "aged", "calls": 1600})
+		aged = 1600
+		ageOnce(cfg.Seed, aged)
+		cfg.Emit(map[string]interface{}{"type": "aged", "calls": aged})
 	}
 	for idx := cfg.From; idx < cfg.To; idx += cfg.Stride {
 		if cfg.expired() {
 			break
 		}
 		p := GenSchedPlan(cfg.Seed, idx, prop)
+		p.Aged = aged // a replay ages its process the same way first
 		abortIndex = idx
 		var sr schedResult
 		var findings []Finding
@@ -1615,6 +1618,15 @@ func workerSchedGenExec(cfg WorkerCfg) int {
 	return 0
 }
 
+var agedAlready bool
+
+func ageOnce(seed uint64, n int) {
+	if !agedAlready {
+		agedAlready = true
+		AgeProcess(seed, n)
+	}
+}
+
 // replaySched re-executes one plan document; reproduced = the expected key is
 // among the findings (or, without expectation, there is any finding).
 func replaySched(cfg WorkerCfg) int {
@@ -1624,6 +1636,9 @@ func replaySched(cfg WorkerCfg) int {
 		return 2
 	}
 	p := plans[0]
+	if p.Aged > 0 {
+		ageOnce(p.Seed, p.Aged)
+	}
 	sr, findings := execSched(p)
 	rep := false
 	var keys []string
